@@ -438,6 +438,18 @@ def norm_rule(ctx, P):
     # the normaliser covers every active codebook's every top-N entry: same loop bounds as the evaluator
     g = P.fn("ptm_mgau_codebook_norm", "ptm_mgau.c")
     ctx.touch(g)
+    for nm, u_ in (("ptm_mgau_codebook_norm", "ptm_mgau.c"), ("mgau_norm", "s2_semi_mgau.c")):
+        h_ = P.fn(nm, u_)
+        ctx.touch(h_)
+        loops = h_.find("For")
+        outer = [lp for lp in loops if h_.enclosing(lp, ("For", "While")) is None]
+        heads = set()
+        for lp in outer:
+            cn = h_.ch(lp)[1]
+            heads.add(cn)
+            heads.update(h_.walk(cn))
+        early = [rt for rt in h_.find("Return") if not paths.always_before(h_, rt, lambda e: e in heads)]
+        ctx.check(r, bool(outer) and not early, key(h_, "no-early-return"), h_.where(early[0]) if early else h_.where(h_.root), "%s can return before its normalisation loop runs (line %s): on those calls the densities written by the evaluator stay raw" % (nm, h_.line(early[0]) if early else "?"))
     bounds = set()
     for lp in g.find("For"):
         c = g.ch(lp)[1] if len(g.ch(lp)) > 1 else None
@@ -585,8 +597,21 @@ def repr_rule(ctx, P):
     ctx.touch(up)
     ctx.touch(st)
     sn = up.calls("snprintf")
+    writing = [c for c in sn if not paths._is_zero(up, up.args(c)[0])]
+    if not writing:
+        raise AnalysisIncomplete("anchor vanished: cmn_update_repr no longer formats the mean with snprintf")
+    # the export holds every value: the writing loop runs over the whole vector and cannot be left early
+    for n_, c in enumerate(writing):
+        lp = up.enclosing(c, ("For", "While"))
+        early = [x for x in up.walk(lp) if up.k(x) in ("Break", "Goto") or (up.k(x) == "Return" and not paths.guarded(up, x, lambda fn, cc, pol: (lambda q: q is not None and q[1] in ("<", "<=") and q[2] == "0" or (q is not None and q[1] == "<=" and q[2] == "0"))(paths.rel(fn, cc, pol, subst=False))))] if lp is not None else []
+        ctx.check(r, lp is not None and not early, key(up, "writes-all#%d" % n_), up.where(c), "the loop that writes the values can be left before all of them are written (line %s): the exported text then holds fewer values than the vector, and importing it sets the rest to zero" % (up.line(early[0]) if early else "?"))
+        dst = up.strip(up.args(c)[0])
+        # destination capacity comes from a counted length, not from a fixed-size array
+        fixed = [m for m in up.walk() if up.k(m) == "Member" and up.nodes[m]["field"] == "repr" and re.search(r"\[\d+\]", up.nodes[m].get("t", ""))]
+        ctx.check(r, not fixed, key(up, "capacity#%d" % n_), up.where(c), "the text is formatted into a fixed-size array (%s): a vector whose text is longer is cut short" % (up.nodes[fixed[0]].get("t") if fixed else ""))
     if len(sn) < 2:
-        raise AnalysisIncomplete("anchor vanished: two snprintf passes in cmn_update_repr")
+        ctx.bad(r, key(up, "two-passes"), up.where(sn[0]), "cmn_update_repr no longer sizes the text before writing it")
+        return
     fmts = []
     vals = []
     for c in sn:
